@@ -40,6 +40,7 @@ ASSUMPTIONS = [
     "intensities are strictly positive and masks keep at least a quarter of the detector, so every pattern has positive mass (finite mask all True, as in the property's domain)",
     "exact-surface fits are only judged for float inputs (integer counts cannot put a CoM exactly on a plane) and the parabola fit only for scans >= 3x3 (full-rank design)",
     "shifts are judged against np.roll only for exactly integer fitted origins: target (0,0) = roll by -origin (the property), integer targets = roll by (target - origin) (shift_origin_to's documented 'target origin position'); fractional origins/targets are judged only differentially (history vs fresh twin)",
+    "global_state cases: torch.set_float32_matmul_precision('high'/'medium'), torch.set_default_dtype(float64) and quantem config dtype_real/dtype_complex=float64/complex128 (set at run time through config.set, plain or as context manager) are applied around the calls and restored in a finally block; the origin model is float32 by construction in every state and must reproduce its default-state result bitwise-close (1e-5), the dataset model follows the configured dtype and is judged at 1e-9 px under float64; torch.autocast is not exercised (it is an explicit request for reduced precision; on the unchanged tree fit_origin_background(plane) is 0.06 px off inside autocast(bfloat16))",
     "cross-instance: a fresh model created after a history (incl. shifts / forward() to non-default targets on another instance with the same detector shape) must reproduce the fresh model created before it",
     "explicit probe positions for the PCA plane fit are non-collinear with slopes |a| <= 2 px per position unit",
 ]
@@ -49,6 +50,8 @@ REQUIRED_COUNTERS = [
     "eval:state_preserved",
     "eval:history_vs_fresh_twin",
     "eval:cross_instance_dependence",
+    "eval:global_state_dependence",
+    "eval:com_vs_oracle_float64",
     "eval:com_vs_oracle",
     "eval:vectorized_vs_looped",
     "eval:batch_invariance",
@@ -65,6 +68,8 @@ TOL_BATCH = 2e-5  # px / relative, same code with a different batch shape (measu
 TOL_FIT = 1e-2  # px, fitted surface vs the exact surface it was fitted to (float32 PCA / float32 storage; measured floor 4.6e-5)
 TOL_FIT64 = 1e-6  # px, fit_origin on exact float64 planes (least squares in float64)
 TOL_STATE = 1e-5  # px / relative: an attribute re-read (or recomputed by the same call) later on the same object (measured: bitwise equal)
+TOL_COM64 = 1e-9  # px, dataset model when the run-time configuration asks for float64 (measured floor on the unchanged tree: 0 - same float64 arithmetic; a float32 detour is >= 5e-8)
+TOL_FIT64CFG = 1e-8  # px, fits of exactly planar float64 centres under that configuration (measured floor: 2e-13)
 TOL_ROLL = 5e-4  # relative to max|pattern| (float32 grid un-normalisation in grid_sample; measured floor 9e-7; an off-by-one roll is O(1))
 
 DTYPES = ["float32", "float32", "float64", "uint16", "int32"]
@@ -72,6 +77,7 @@ MASKS = ["none", "none", "binary", "half", "weights"]
 SURFACES = ["random", "plane", "plane", "constant"]
 FITS = ["plane", "plane", "constant", "parabola", "none"]
 MODES = ["bilinear", "nearest", "bicubic"]
+GLOBAL_STATES = ["matmul_high", "matmul_medium", "default_dtype_float64", "config_float64", "config_float64", "config_float64+matmul_medium+default_dtype_float64"]
 # regression corpus: exactly constant origins on which the iterative plane fit stopped with MINPACK info=8 and raised
 FIT_WITNESSES = [
     ([3, 5], "0x1.8b0a63f8de6f2p+2"),
@@ -123,6 +129,12 @@ def plan(tier, seed):
         scan = _shape(rng, 1, 6, False)
         det = _shape(rng, 4, 20, rng.random() < 0.8)
         specs.append({"kind": "shift", "scan": scan, "det": det, "mode": MODES[k % 3], "route": ["setter", "setter", "constant_fit", "dataset"][int(rng.integers(4))]})
+    n_glob = 240 if tier == "quick" else 8000
+    big = [[5, 7], [6, 6], [6, 7], [7, 6], [7, 7], [7, 5]]  # > 32 patterns, so that batches of more than 32 patterns occur
+    for k in range(n_glob):
+        dt = ["float64", "float32", "float64", "uint16"][int(rng.integers(4))]
+        surface = SURFACES[int(rng.integers(len(SURFACES)))] if dt.startswith("float") else "random"
+        specs.append({"kind": "global_state", "state": GLOBAL_STATES[k % len(GLOBAL_STATES)], "scan": big[int(rng.integers(len(big)))] if k % 4 else _shape(rng, 2, 7, False), "det": _shape(rng, 4, 20, rng.random() < 0.8), "dtype": dt, "surface": surface, "mask": MASKS[int(rng.integers(len(MASKS)))], "how": ["set", "with"][int(rng.integers(2))]})
     # interleave the kinds: when the soft time budget expires on a loaded machine every kind has still been run
     order = rng.permutation(len(specs))
     return [specs[i] for i in order]
@@ -140,6 +152,9 @@ def setup(ctx):
     import quantem.diffractive_imaging.dataset_models as dm
 
     ctx.state["dm"] = dm
+    from quantem.core import config as qconfig
+
+    ctx.state["config"] = qconfig
 
 
 # ------------------------------------------------------------------------------------------------
@@ -253,12 +268,12 @@ def _run_dataset_path(ctx, A, mask, fit, vec, entry):
     return ds
 
 
-def _judge_com(ctx, got_r, got_c, orr, occ, tol, **fields):
+def _judge_com(ctx, got_r, got_c, orr, occ, tol, mech="com_vs_oracle", **fields):
     er, ec = _maxabs(got_r - orr), _maxabs(got_c - occ)
     bad = max(er, ec) > tol
     swapped = bool(bad and max(_maxabs(got_r - occ), _maxabs(got_c - orr)) <= tol)
-    ok1 = ctx.close(er, tol, "com_vs_oracle", lambda: "row centre differs from the float64 weighted mean (swapped rows/columns: %s)" % swapped, axis="row", swapped=swapped, **fields)
-    ok2 = ctx.close(ec, tol, "com_vs_oracle", lambda: "column centre differs from the float64 weighted mean (swapped rows/columns: %s)" % swapped, axis="col", swapped=swapped, **fields)
+    ok1 = ctx.close(er, tol, mech, lambda: "row centre differs from the float64 weighted mean (swapped rows/columns: %s)" % swapped, axis="row", swapped=swapped, **fields)
+    ok2 = ctx.close(ec, tol, mech, lambda: "column centre differs from the float64 weighted mean (swapped rows/columns: %s)" % swapped, axis="col", swapped=swapped, **fields)
     return ok1 and ok2
 
 
@@ -700,10 +715,130 @@ def _run_history(spec, idx, ctx):
     ctx.nontrivial(("history", spec["impl"], tuple(spec["scan"]), tuple(spec["det"]), spec["surface"], tuple(o.split("(")[0] for o in ops)), H != W and len(ops) >= 3 and mutators >= 2)
     ctx.observe(impl=spec["impl"], ops=ops)
 
+# ------------------------------------------------------------------------------------------------
+# process-global state a user may legitimately change: PyTorch's float32 matmul precision and default dtype, and the
+# quantem configuration (dtype_real / dtype_complex set at run time through the public config API). Every state is
+# restored afterwards (the worker process is shared by all cases).
+
+import contextlib
+
+
+@contextlib.contextmanager
+def _global_state(ctx, name, how):
+    from vf.core import HarnessError
+
+    torch, config = ctx.state["torch"], ctx.state["config"]
+    prev = (torch.get_float32_matmul_precision(), torch.get_default_dtype(), config.get("dtype_real"), config.get("dtype_complex"))
+    stack = contextlib.ExitStack()
+    try:
+        for part in name.split("+"):
+            if part.startswith("matmul_"):
+                torch.set_float32_matmul_precision(part.split("_")[1])
+            elif part == "default_dtype_float64":
+                torch.set_default_dtype(torch.float64)
+            elif part == "config_float64":
+                if how == "with":
+                    stack.enter_context(config.set({"dtype_real": "float64", "dtype_complex": "complex128"}))
+                else:
+                    config.set({"dtype_real": "float64", "dtype_complex": "complex128"})
+        yield
+    finally:
+        stack.close()
+        torch.set_float32_matmul_precision(prev[0])
+        torch.set_default_dtype(prev[1])
+        config.set({"dtype_real": prev[2], "dtype_complex": prev[3]})
+        now = (torch.get_float32_matmul_precision(), torch.get_default_dtype(), config.get("dtype_real"), config.get("dtype_complex"))
+        if now != prev:
+            raise HarnessError("global state not restored: %r -> %r" % (prev, now))
+
+
+def _origin_results(ctx, Ain, sizes, fit_method, mode):
+    m = ctx.state["COM"].from_dataset(ctx.state["D4"].from_array(np.array(Ain, copy=True)))
+    meas = {}
+    for b in sizes:
+        m.calculate_origin(b)
+        meas[b] = _np(m.origin_measured)
+    m.fit_origin_background(fit_method=fit_method)
+    m.estimate_detector_rotation()
+    m.shift_origin_to((0, 0), sizes[-1], mode)
+    return meas, _np(m.origin_fitted), _np(m.shifted_tensor)
+
+
+def _run_global(spec, idx, ctx):
+    rng = ctx.rng(idx)
+    (nr, nc), (H, W) = spec["scan"], spec["det"]
+    n = nr * nc
+    state = spec["state"]
+    cfg64 = "config_float64" in state
+    A = _gen_patterns(rng, nr, nc, H, W, spec["surface"], spec["dtype"])
+    mask = _gen_mask(rng, H, W, spec["mask"])
+    masked = mask is not None
+    mask32 = None if mask is None else np.asarray(mask, dtype=np.float32)
+    A32 = A.astype(np.float32)
+    fit = ["plane", "constant", "none", "parabola" if min(nr, nc) >= 3 else "plane"][int(rng.integers(4))]
+    fm, mode = ["plane", "constant"][int(rng.integers(2))], MODES[int(rng.integers(len(MODES)))]
+    sizes = sorted(set([1, 32, 33, n, n + 2, int(rng.integers(1, n + 1))])) + [None]
+    sizes = [b for b in sizes if b is None or b <= n + 2]
+    Ain = A if not masked else A32 * mask32
+    f = dict(state=state, config_how=spec["how"] if cfg64 else "na")
+    # ---- default global state first (fresh instances) -------------------------------------------------------
+    base_meas, base_fit, base_shift = _origin_results(ctx, Ain, sizes, fm, mode)
+    base_ds = {}
+    for vec in (True, False):
+        ds = _run_dataset_path(ctx, A, mask, fit, vec, "direct" if masked else "preprocess")
+        base_ds[vec] = (_np(ds.com_measured), _np(ds.com_fit))
+    o32 = _oracle_com(A32, mask32)
+    # ---- the same calls under the changed global state ------------------------------------------------------------
+    with _global_state(ctx, state, spec["how"]):
+        meas, fitted, shifted = _origin_results(ctx, Ain, sizes, fm, mode)
+        got_ds = {}
+        for vec in (True, False):
+            ds = _run_dataset_path(ctx, A, mask, fit, vec, "direct" if masked else "preprocess")
+            got_ds[vec] = (_np(ds.com_measured), _np(ds.com_fit), str(np.asarray(ds.com_measured).dtype), np.array(ds.intensities_4d, dtype=np.float64, copy=True))
+    # ---- origin model (float32 by construction): oracle, batch invariance, equality with the default-state run
+    ref = meas[None]
+    for b in sizes:
+        om = meas[b]
+        _judge_com(ctx, om[:, 0].reshape(nr, nc), om[:, 1].reshape(nr, nc), o32[0], o32[1], TOL_COM, impl="origin_model", path="global_state", entry="calculate_origin", masked=masked, batch="none" if b is None else "gt_32" if b > 32 else "le_32", **f)
+        ctx.close(_maxabs(om - ref), TOL_BATCH, "batch_invariance", lambda: "calculate_origin(max_batch_size=%r) differs from the un-batched result under %s (n=%d)" % (b, state, n), impl="origin_model", stage="calculate_origin", **f)
+        ctx.close(_maxabs(om - base_meas[b]), TOL_STATE, "global_state_dependence", lambda: "origin_measured (max_batch_size=%r) under %s differs from the default-state result" % (b, state), impl="origin_model", attr="origin_measured", **f)
+    ctx.close(_maxabs(fitted - base_fit), TOL_STATE, "global_state_dependence", lambda: "origin_fitted (%s) under %s differs from the default-state result" % (fm, state), impl="origin_model", attr="origin_fitted", **f)
+    ctx.close(_maxabs(shifted - base_shift) / (_maxabs(base_shift) or 1.0), TOL_STATE, "global_state_dependence", lambda: "shifted_tensor (%s) under %s differs from the default-state result" % (mode, state), impl="origin_model", attr="shifted_tensor", **f)
+    # ---- dataset model --------------------------------------------------------------------------------------
+    for vec in (True, False):
+        cm, cf, dt, held = got_ds[vec]
+        path = "vectorized" if vec else "looped"
+        common = dict(impl="dataset", path=path, entry="global_state", masked=masked, **f)
+        if cfg64:
+            ctx.check(dt == "float64", "configured_dtype_ignored", "com_measured is %s although dtype_real=float64 is configured" % dt, **common)
+            # the working precision is float64 now: judge against the float64 oracle of the intensities the model holds
+            src = A.astype(np.float64)
+            if not (masked and not vec):  # (the looped path multiplies its intensities by the mask in place)
+                ctx.check(np.array_equal(held, src), "intensities_rounded", "intensities_4d is not the float64 image of the input under dtype_real=float64", **common)
+            o64 = _oracle_com(src, None if mask is None else mask32)
+            _judge_com(ctx, cm[0], cm[1], o64[0], o64[1], TOL_COM64, mech="com_vs_oracle_float64", **common)
+            dev = max(_plane_dev(o64[0]), _plane_dev(o64[1]))
+            if fit == "none":
+                ctx.close(_maxabs(cf - cm), 0.0, "fit_none_identity", "fit_function='none' must return the measured centres", **common)
+            elif spec["surface"] in ("plane", "constant") and not masked and dev < 1e-11 and (fit != "constant" or spec["surface"] == "constant"):
+                ctx.close(_maxabs(cf - cm), TOL_FIT64CFG, "fit_exact_surface_float64", lambda: "com_fit differs from the exact %s the measured centres lie on (fit=%s, float64 configuration)" % (spec["surface"], fit), fit=fit, surface=spec["surface"], **common)
+        else:
+            _judge_com(ctx, cm[0], cm[1], o32[0], o32[1], TOL_COM, **common)
+            ctx.close(_maxabs(cm - base_ds[vec][0]), TOL_STATE, "global_state_dependence", lambda: "com_measured (%s) under %s differs from the default-state result" % (path, state), attr="com_measured", **common)
+            ctx.close(_maxabs(cf - base_ds[vec][1]), TOL_STATE, "global_state_dependence", lambda: "com_fit (%s, %s) under %s differs from the default-state result" % (path, fit, state), attr="com_fit", **common)
+    tolp = TOL_COM64 if cfg64 else TOL_PATH
+    ctx.close(_maxabs(got_ds[True][0] - got_ds[False][0]), tolp, "vectorized_vs_looped_float64" if cfg64 else "vectorized_vs_looped", lambda: "com_measured differs between vectorized=True and vectorized=False under %s" % state, impl="dataset", entry="global_state", masked=masked, swapped=False, **f)
+    ctx.close(max(_maxabs(ref[:, 0].reshape(nr, nc) - got_ds[True][0][0]), _maxabs(ref[:, 1].reshape(nr, nc) - got_ds[True][0][1])), TOL_PATH, "models_agree", "CenterOfMassOriginModel.origin_measured differs from PtychographyDatasetRaster.com_measured under %s" % state, masked=masked, entry="global_state", **f)
+    sep = float(np.mean(np.abs(o32[0] - o32[1])))
+    ctx.nontrivial(("global_state", state, tuple(spec["scan"]), tuple(spec["det"]), spec["dtype"], spec["mask"], spec["surface"], fit), H != W and sep > 0.5)
+    ctx.observe(state=state, n=n, batch_sizes=sizes, over_32=bool(n > 32), fit=fit, dtype_com=got_ds[True][2])
+
 
 def run_case(spec, idx, ctx):
     with np.errstate(all="ignore"):
-        if spec["kind"] == "history":
+        if spec["kind"] == "global_state":
+            _run_global(spec, idx, ctx)
+        elif spec["kind"] == "history":
             _run_history(spec, idx, ctx)
         elif spec["kind"] == "com":
             _run_com(spec, idx, ctx)
